@@ -166,9 +166,10 @@ class Engine:
                 continue
             tried += 1
             sigs, ie = self.single_sigs(h, lines)
+            before = set(seen)
             seen |= quick
             for sg in sorted(sigs):
-                if sg in seen:
+                if sg in before:
                     continue
                 seen.add(sg)
                 small = self.shrink(h, lines, sg) if len(lines) > 3 else lines
